@@ -113,6 +113,11 @@ impl DmData {
         reader: &mut BsIoSliceReader,
     ) -> Result<Option<T>> {
         let num_ext_blocks = reader.get_ue()?;
+        // Every block takes at least its length code, level byte and one payload byte
+        ensure!(
+            num_ext_blocks <= reader.available()? / 16,
+            format!("{}: num_ext_blocks exceeds the remaining data", T::VERSION)
+        );
         let mut meta = T::with_blocks_allocation(num_ext_blocks);
 
         meta.set_num_ext_blocks(num_ext_blocks);
